@@ -205,7 +205,11 @@ func drawItemPlan(rt *rapid.T, op kmip.Operation, conformantBias bool) itemPlan 
 	p.Status = rapid.SampledFrom([]uint32{0, 0, 0, 1, 1, 2, 3, 0x99}).Draw(rt, "status")
 	if p.Status != 0 || rapid.IntRange(0, 5).Draw(rt, "reasononsuccess") == 0 {
 		p.Reason = rapid.SampledFrom([]uint32{0, 1, 4, 0x100, 0x7777, 0x80000001}).Draw(rt, "reason")
-		p.Message = rapid.SampledFrom([]string{"", "no such object", "permission denied: key 17", "m"}).Draw(rt, "message")
+		// the server's text is data: anything a text string can hold, including what formatting or quoting code trips over
+		p.Message = rapid.OneOf(
+			rapid.SampledFrom([]string{"", "no such object", "permission denied: key 17", "m", "storage is 100% full", "key%2Fprod not found", "%s %d %v %!", "100%", "a\"b'c\\d", "line1\nline2\ttab", "nicht gefunden: Schlüssel ÄÖ€ 🔑"}),
+			rapid.StringOfN(rapid.RuneFrom([]rune("ab %svd!(){}[]\"'\\\n:;,.-_=+#é€")), 1, 24, -1),
+		).Draw(rt, "message")
 	}
 	p.PayloadMode = rapid.SampledFrom([]string{"requested", "requested", "requested", "absent", "other", "generic"}).Draw(rt, "payloadmode")
 	switch p.PayloadMode {
